@@ -14,6 +14,17 @@ is proved inside Coq by coq-interval on the unfolded model (inputs and y exact
 rationals of the doubles).  tol = 1e-9 * (sum of the magnitudes of the terms that are
 added) + 1e-13: far above double rounding, far below any change of formula.
 
+Constructor stage / dtype of the inputs (RealModel/LikelihoodsTyped.v, Properties/C05Typed.v):
+the base class stores array(y_data) / array(uncertainties) WITHOUT forcing a dtype, so the
+constants pre-computed by the constructors depend on how the user typed the numbers.  A second
+family of cases therefore hands the data and the uncertainties over the way users do: lists /
+tuples of Python ints, int8..int64 / uint8..uint64 arrays, Python scalars (n = 1), float lists,
+lists mixing ints and floats, float32 / longdouble arrays, (n,1) / (1,n) arrays, strided views,
+read-only arrays.  Their goals go through the two-stage model (`gauss_call (gauss_init ys ss) fs`
+with `SInt k` / `SFlt q` elements), which the C05_typed_* theorems tie to the same textbook sum.
+float32 uncertainties are computed by numpy in single precision (that is the dtype the user
+chose): tolerance 4e-6 instead of 1e-9 for those cases only.
+
 Failing-input search: for a value goal that does not check, the *textbook* density sum
 (sum_logpdf <named pdf>, not the code-shaped formula) is evaluated by interval against
 the implementation's number; for a gradient goal, central differences of the
@@ -39,15 +50,25 @@ THEOREMS = ["C05_gauss_is_sum_logpdf", "C05_cauchy_is_sum_logpdf", "C05_logistic
             "C05_cost_is_negative", "C05_cost_gradient_is_derivative",
             "C05_cauchy_pdf_normalised", "C05_logistic_pdf_normalised", "C05_normalised_total"]
 
-PREAMBLE = """From Coq Require Import Reals List.
+TYPED_THEOREMS = ["C05_typed_gauss_is_sum_logpdf", "C05_typed_cauchy_is_sum_logpdf",
+                  "C05_typed_logistic_is_sum_logpdf",
+                  "C05_typed_gauss_gradient_is_derivative", "C05_typed_cauchy_gradient_is_derivative",
+                  "C05_typed_logistic_gradient_is_derivative", "C05_typed_representation_independent",
+                  "C05_samedtype_reciprocal_of_int_is_zero", "C05_samedtype_reciprocal_gauss_refuted",
+                  "C05_samedtype_reciprocal_cauchy_refuted"]
+
+PREAMBLE = """From Coq Require Import Reals List ZArith.
 From Interval Require Import Tactic.
-From IT Require Import RealModel.Likelihoods.
+From IT Require Import RealModel.Likelihoods RealModel.LikelihoodsTyped.
 Import ListNotations.
 Open Scope R_scope.
 Ltac c05_unfold := cbv [gauss_loglike gauss_normalisation gauss_z gauss_gradient gauss_dLdF
   cauchy_loglike cauchy_normalisation cauchy_z cauchy_gradient cauchy_dLdF
   logistic_loglike logistic_normalisation logistic_z logistic_scale logistic_gradient logistic_dLdF
   logaddexp vecmat cost cost_gradient sum_logpdf gauss_pdf cauchy_pdf logistic_pdf
+  gauss_call gauss_grad gauss_init gauss_init_with gs_y gs_inv_sigma gs_inv_sigma_sqr gs_norm
+  cauchy_call cauchy_grad cauchy_init cauchy_init_with cs_y cs_inv_gamma cs_norm
+  logistic_call logistic_grad logistic_init ls_y ls_inv_scale ls_norm sval true_recip
   sumR map2 map3 map fold_right nth length INR].
 """
 UNFOLD = "c05_unfold."
@@ -55,7 +76,63 @@ CLASSES = {"gauss": "GaussianLikelihood", "cauchy": "CauchyLikelihood", "logisti
 TEXTBOOK = {"gauss": "gauss_pdf", "cauchy": "cauchy_pdf",
             "logistic": "(fun mu s y => logistic_pdf mu (logistic_scale s) y)"}
 REL = Fraction(1, 10 ** 9)
+REL32 = Fraction(4, 10 ** 6)      # uncertainties given as float32: numpy computes inv_sigma, log(sigma) in single precision
 ABS = Fraction(1, 10 ** 13)
+
+# ---------------------------------------------------------------- how the user hands the numbers over
+INT_KINDS = ["pylist_int", "pytuple_int", "int64", "int32", "uint32", "uint64", "int16", "uint16",
+             "int8", "uint8", "int64_column"]
+FLOAT_KINDS = ["float64", "pylist_float", "mixed_list", "float32", "longdouble", "column", "row",
+               "strided", "readonly"]
+SCALAR_KINDS = {"pyscalar_int": "int", "pyscalar_float": "float"}
+
+
+def family(kind):
+    return "int" if kind in INT_KINDS or kind == "pyscalar_int" else "float"
+
+
+def int_range(kind):
+    if kind in ("pylist_int", "pytuple_int", "int64_column", "pyscalar_int"):
+        kind = "int64"
+    ii = np.iinfo(kind)
+    return int(ii.min), int(ii.max)
+
+
+def materialise(values, kind):
+    """The object passed to the constructor.  `values` are the exact numbers (floats)."""
+    if kind == "float64":
+        return np.array(values, dtype=float)
+    if kind == "pylist_int":
+        return [int(v) for v in values]
+    if kind == "pytuple_int":
+        return tuple(int(v) for v in values)
+    if kind == "pyscalar_int":
+        return int(values[0])
+    if kind == "pyscalar_float":
+        return float(values[0])
+    if kind == "int64_column":
+        return np.array([int(v) for v in values], dtype=np.int64).reshape(-1, 1)
+    if kind in INT_KINDS:
+        return np.array([int(v) for v in values], dtype=kind)
+    if kind == "pylist_float":
+        return [float(v) for v in values]
+    if kind == "mixed_list":      # whole numbers typed without the decimal point
+        return [int(v) if float(v).is_integer() else float(v) for v in values]
+    if kind in ("float32", "longdouble"):
+        return np.array(values, dtype=kind)
+    if kind == "column":
+        return np.array(values, dtype=float).reshape(-1, 1)
+    if kind == "row":
+        return np.array(values, dtype=float).reshape(1, -1)
+    if kind == "strided":
+        big = np.full(2 * len(values), np.nan)
+        big[::2] = values
+        return big[::2]
+    if kind == "readonly":
+        a = np.array(values, dtype=float)
+        a.setflags(write=False)
+        return a
+    raise ValueError(kind)
 
 
 # ---------------------------------------------------------------- forward models
@@ -80,7 +157,8 @@ def build(case):
     import inference.likelihoods as L
     cls = getattr(L, CLASSES[case["cls"]])
     m = case["model"]
-    return cls(np.array(case["y"], dtype=float), np.array(case["sigma"], dtype=float),
+    return cls(materialise(case["y"], case.get("y_kind", "float64")),
+               materialise(case["sigma"], case.get("s_kind", "float64")),
                forward_model=lambda t: forward(m, t), forward_model_jacobian=lambda t: jacobian(m, t))
 
 
@@ -160,6 +238,70 @@ def gen_case(r, k):
             "model": m, "smode": smode, "rmode": rmode}
 
 
+def gen_typed_case(r, k):
+    """A case whose data / uncertainties reach the constructor in a user-typed representation
+    (integer lists / arrays of every width, Python scalars, float32, columns, views ...)."""
+    cls = ["gauss", "cauchy", "logistic"][k % 3]
+    n = r.choice([1, 2, 3, 4, 5, 6])
+    p = r.choice([1, 2, 3])
+    kind = r.choice(["linear", "quadratic"])
+    # ---- uncertainties
+    if r.random() < 0.7:
+        s_kind = r.choice(INT_KINDS + (["pyscalar_int"] * 2 if n == 1 else []))
+        smode = r.choice(["int small", "int small", "int mid", "int large"])
+        top = {"int small": 9, "int mid": 120, "int large": 10 ** 6}[smode]
+        top = min(top, int_range(s_kind)[1])
+        sigma = [float(r.randint(1, top)) for _ in range(n)]
+        if smode == "int small" and r.random() < 0.25:
+            sigma = [1.0] * n
+            smode = "int all ones"
+    else:
+        s_kind = r.choice(FLOAT_KINDS + (["pyscalar_float"] * 2 if n == 1 else []))
+        smode = "float"
+        sigma = [log_uniform(r, -4, 4) for _ in range(n)]
+        if s_kind == "mixed_list":
+            sigma = [float(r.randint(1, 9)) if r.random() < 0.6 else s for s in sigma]
+            if all(s.is_integer() for s in sigma):
+                sigma[r.randrange(n)] = r.choice([0.5, 1.5, 2.5, 0.25])
+        if s_kind == "float32":
+            sigma = [float(np.float32(s)) for s in sigma]
+    theta = [r.choice([-1, 1]) * log_uniform(r, -2, 1) for _ in range(p)]
+    m = {"kind": kind,
+         "a": [r.uniform(-5, 5) for _ in range(n)],
+         "B": [[r.uniform(-3, 3) for _ in range(p)] for _ in range(n)]}
+    if kind == "quadratic":
+        m["Cq"] = [[r.uniform(-2, 2) for _ in range(p)] for _ in range(n)]
+    f = forward(m, theta)
+    rmode = r.choice(["small", "small", "moderate", "huge", "mixed"])
+    yreal = []
+    for i in range(n):
+        md = rmode if rmode != "mixed" else r.choice(["small", "moderate", "huge"])
+        if md == "small":
+            z = r.gauss(0, 1.5)
+        elif md == "moderate":
+            z = r.choice([-1, 1]) * r.uniform(3, 40)
+        else:
+            z = r.choice([-1, 1]) * r.uniform(100, 700)
+        yreal.append(float(f[i] + z * sigma[i]))
+    # ---- data
+    if r.random() < 0.4:
+        y = [float(round(v)) for v in yreal]
+        fits = [kd for kd in INT_KINDS + (["pyscalar_int"] if n == 1 else [])
+                if int_range(kd)[0] <= min(y) and max(y) <= int_range(kd)[1]]
+        y_kind = r.choice(fits)
+    else:
+        y_kind = r.choice(FLOAT_KINDS + (["pyscalar_float"] if n == 1 else []))
+        y = list(yreal)
+        if y_kind == "mixed_list":
+            y = [float(round(v)) if r.random() < 0.6 else v for v in y]
+            if all(v.is_integer() for v in y):
+                y[r.randrange(n)] += 0.5
+        if y_kind == "float32":
+            y = [float(np.float32(v)) for v in y]
+    return {"cls": cls, "y": y, "sigma": sigma, "theta": [float(t) for t in theta], "model": m,
+            "smode": smode, "rmode": rmode, "y_kind": y_kind, "s_kind": s_kind}
+
+
 # ---------------------------------------------------------------- tolerances (magnitude of the summed terms)
 def magnitudes(case):
     """(magnitude of the terms of the value, per-parameter magnitude of the terms of the
@@ -181,12 +323,16 @@ def magnitudes(case):
             mv = np.sum(np.abs(z)) + 2 * np.sum(np.logaddexp(0.0, z)) + np.sum(np.abs(np.log(sc)))
             d = 1.0 / sc
     mg = d @ J
+    if case.get("s_kind") == "float32":
+        # single-precision log(sigma) / log(pi*gamma): absolute error ~6e-8 per point even where the log is ~0
+        mv = mv + len(y)
     return float(mv), [float(x) for x in np.atleast_1d(mg)]
 
 
-def tol_for(mag, observed):
+def tol_for(mag, observed, case=None):
     m = max(Fraction(mag), abs(C.frac(observed)))
-    return REL * m + ABS
+    rel = REL32 if case is not None and case.get("s_kind") == "float32" else REL
+    return rel * m + ABS
 
 
 # ---------------------------------------------------------------- Coq terms
@@ -200,6 +346,28 @@ def coq_inputs(case):
     ys, ss, fs = rlist(case["y"]), rlist(case["sigma"]), rlist(f)
     Jt = C.clist([rlist(row) for row in J])
     return ys, ss, fs, Jt
+
+
+def slist(xs, kind):
+    """list of `scalar`: SInt k for an integer-dtype input, SFlt q for a float one."""
+    if family(kind) == "int":
+        return C.clist([f"SInt ({int(x)})%Z" for x in xs])
+    return C.clist([f"SFlt {C.cR(x)}" for x in xs])
+
+
+def typed_goals_for(k, case, out):
+    """Goals of a case with user-typed inputs: through the constructor-stage model."""
+    _, _, fs, Jt = coq_inputs(case)
+    ys, ss = slist(case["y"], case["y_kind"]), slist(case["sigma"], case["s_kind"])
+    c = case["cls"]
+    mv, mg = magnitudes(case)
+    st = f"({c}_init {ys} {ss})"
+    gs = [(f"t{k}_value", I.goal_abs_close(f"{c}_call {st} {fs}", out["value"],
+                                           tol_for(mv, out["value"], case)), None)]
+    for j in range(len(case["theta"])):
+        gs.append((f"t{k}_grad{j}", I.goal_abs_close(f"{c}_grad {st} {fs} {Jt} {j}%nat", out["grad"][j],
+                                                     tol_for(mg[j], out["grad"][j], case)), None))
+    return gs
 
 
 def goals_for(k, case, out):
@@ -226,7 +394,7 @@ def oracle_value(tag, case, out):
     ys, ss, fs, _ = coq_inputs(case)
     mv, _ = magnitudes(case)
     stmt = I.goal_abs_close(f"sum_logpdf {TEXTBOOK[case['cls']]} {ys} {ss} {fs}", out["value"],
-                            10 * tol_for(mv, out["value"]))
+                            10 * tol_for(mv, out["value"], case))
     failed, broken = I.check_goals(PROP, f"oracle_{tag}", [("o", stmt, None)], preamble=PREAMBLE, unfold=UNFOLD)
     if broken:
         return None
@@ -266,6 +434,12 @@ def oracle_gradient(case, out):
     return bad
 
 
+def given(case):
+    if "y_kind" not in case:
+        return ""
+    return f" [data given as {case['y_kind']}, uncertainties as {case['s_kind']}]"
+
+
 def describe(case):
     d = {"cls": case["cls"], "y_hex": [float(v).hex() for v in case["y"]],
          "sigma_hex": [float(v).hex() for v in case["sigma"]],
@@ -274,6 +448,8 @@ def describe(case):
                    "a_hex": [float(v).hex() for v in case["model"]["a"]],
                    "B_hex": [[float(v).hex() for v in row] for row in case["model"]["B"]]},
          "y": case["y"], "sigma": case["sigma"], "theta": case["theta"]}
+    if "y_kind" in case:
+        d["data_given_as"], d["uncertainties_given_as"] = case["y_kind"], case["s_kind"]
     if case["model"]["kind"] == "quadratic":
         d["model"]["Cq_hex"] = [[float(v).hex() for v in row] for row in case["model"]["Cq"]]
     return d
@@ -285,8 +461,11 @@ def undescribe(d):
          "B": [[fh(v) for v in row] for row in d["model"]["B_hex"]]}
     if m["kind"] == "quadratic":
         m["Cq"] = [[fh(v) for v in row] for row in d["model"]["Cq_hex"]]
-    return {"cls": d["cls"], "y": [fh(v) for v in d["y_hex"]], "sigma": [fh(v) for v in d["sigma_hex"]],
-            "theta": [fh(v) for v in d["theta_hex"]], "model": m}
+    c = {"cls": d["cls"], "y": [fh(v) for v in d["y_hex"]], "sigma": [fh(v) for v in d["sigma_hex"]],
+         "theta": [fh(v) for v in d["theta_hex"]], "model": m}
+    if "data_given_as" in d:
+        c["y_kind"], c["s_kind"] = d["data_given_as"], d["uncertainties_given_as"]
+    return c
 
 
 def shrink(case, fails):
@@ -307,7 +486,9 @@ def shrink(case, fails):
 # ---------------------------------------------------------------- the run
 def run(rep: C.Report, tier: str) -> int:
     r = C.rng_for(PROP, "cases")
+    rt = C.rng_for(PROP, "typed")
     n_cases = 90 if tier == "quick" else 900
+    n_typed = 48 if tier == "quick" else 480
     C.clean_gen(PROP)
     C.prove_and_audit(rep, PROP, THEOREMS)
     try:      # supplementary theorems (the Gaussian pdf is normalised)
@@ -318,10 +499,19 @@ def run(rep: C.Report, tier: str) -> int:
         rep.obligation(False, 5)
         rep.violation("C05/proof", f"proof obligation no longer checks: {_e.what}",
                       {"theorem_or_correspondence": _e.what, "log": _e.log[-1000:]}, False)
+    try:      # constructor stage: the dtype of the data / uncertainties does not matter
+        _a = C.coq_audit("C05_typed", TYPED_THEOREMS, "IT.Properties.C05Typed")
+        rep.obligation(True, len(TYPED_THEOREMS))
+        rep.coverage["typed_audit"] = _a
+    except C.ProofFailure as _e:
+        rep.obligation(False, len(TYPED_THEOREMS))
+        rep.violation("C05/proof", f"proof obligation no longer checks: {_e.what}",
+                      {"theorem_or_correspondence": _e.what, "log": _e.log[-1000:]}, False)
 
     cases, outs, goals, owner = [], [], [], {}
-    for k in range(n_cases):
-        case = gen_case(r, k)
+    for k in range(n_cases + n_typed):
+        typed = k >= n_cases
+        case = gen_typed_case(rt, k) if typed else gen_case(r, k)
         out = run_impl(case)
         cases.append(case)
         outs.append(out)
@@ -331,13 +521,19 @@ def run(rep: C.Report, tier: str) -> int:
         rep.count("residual=" + case["rmode"])
         rep.count(f"n={len(case['y'])}")
         rep.count(f"params={len(case['theta'])}")
-        rep.case((case["cls"], case["y"], case["sigma"], case["theta"], case["model"]), nontrivial=True)
-        if k < 3:
+        rep.count("data given as=" + case.get("y_kind", "float64"))
+        rep.count("uncertainties given as=" + case.get("s_kind", "float64"))
+        if typed and family(case["s_kind"]) == "int" and max(case["sigma"]) > 1:
+            rep.count("integer uncertainties, some > 1")
+        rep.case((case["cls"], case["y"], case["sigma"], case["theta"], case["model"],
+                  case.get("y_kind"), case.get("s_kind")), nontrivial=True)
+        if k < 3 or n_cases <= k < n_cases + 3:
             rep.sample({"class": case["cls"], "y": case["y"], "sigma": case["sigma"], "theta": case["theta"],
-                        "forward_model": case["model"]["kind"], "impl": out})
+                        "forward_model": case["model"]["kind"], "data_given_as": case.get("y_kind", "float64"),
+                        "uncertainties_given_as": case.get("s_kind", "float64"), "impl": out})
         if out["status"] != "ok":
-            rep.violation("C05/exception", f"{CLASSES[case['cls']]} failed on a valid input: {out.get('error')}",
-                          {"case": describe(case)}, True)
+            rep.violation("C05/exception", f"{CLASSES[case['cls']]} failed on a valid input{given(case)}: "
+                          f"{out.get('error')}", {"case": describe(case)}, True)
             continue
         # cost / cost_gradient must be the exact negatives (sign flip is exact in doubles)
         if out["cost"] != -out["value"] or any(a != -b for a, b in zip(out["cgrad"], out["grad"])):
@@ -351,7 +547,7 @@ def run(rep: C.Report, tier: str) -> int:
                 rep.count("branch=logistic exp(-z) overflows")
             if (z > 709.8).any():
                 rep.count("branch=logistic exp(z) overflows in logaddexp")
-        for g in goals_for(k, case, out):
+        for g in (typed_goals_for(k, case, out) if typed else goals_for(k, case, out)):
             goals.append(g)
             owner[g[0]] = k
 
@@ -367,6 +563,24 @@ def run(rep: C.Report, tier: str) -> int:
 
     # failing-input search
     seen = set()
+    value_state = {}      # case index -> True (value is the named density) / False (violation reported) / None
+
+    def examine_value(k):
+        if k in value_state:
+            return value_state[k]
+        case, out = cases[k], outs[k]
+        ok = oracle_value(f"{k}", case, out)
+        value_state[k] = ok
+        if ok is False:
+            def fails(c):
+                o = run_impl(c)
+                return o["status"] == "ok" and oracle_value("shrink", c, o) is False
+            small = shrink(case, fails)
+            rep.violation("C05/value", f"{CLASSES[case['cls']]}.__call__ is not the sum of the log of the "
+                          f"named density (returned {out['value']!r}){given(case)}",
+                          {"case": describe(small), "impl": run_impl(small)}, True)
+        return ok
+
     for gid, log in failed:
         k = owner[gid]
         what = gid.split("_", 1)[1]
@@ -376,23 +590,22 @@ def run(rep: C.Report, tier: str) -> int:
         seen.add((k, group))
         case, out = cases[k], outs[k]
         if what in ("value", "cost"):
-            ok = oracle_value(f"{k}", case, out)
-            if ok is False:
-                def fails(c):
-                    o = run_impl(c)
-                    return o["status"] == "ok" and oracle_value("shrink", c, o) is False
-                small = shrink(case, fails)
-                rep.violation("C05/value", f"{CLASSES[case['cls']]}.__call__ is not the sum of the log of the "
-                              f"named density (returned {out['value']!r})",
-                              {"case": describe(small), "impl": run_impl(small)}, True)
+            if examine_value(k) is False:
                 continue
         else:
             bad = oracle_gradient(case, out)
             if bad:
                 j, fd, g = bad[0]
                 rep.violation("C05/gradient", f"{CLASSES[case['cls']]}.gradient entry {j} is {g!r} but central "
-                              f"differences of the value give {fd!r}",
+                              f"differences of the value give {fd!r}{given(case)}",
                               {"case": describe(case), "impl": out}, True)
+                continue
+            # the gradient agrees with differences of the implementation's own value: is that value the
+            # named density at all?  (a chunk of goals stops after 6 failures, so the value goal of this
+            # case may not have been evaluated.)  If not, that is the finding -- reported once, with the input.
+            if examine_value(k) is False:
+                rep.count("gradient disagreement on a case whose value violation is reported")
+                seen.add((k, "value"))
                 continue
         rep.violation("C05/correspondence",
                       f"model and implementation disagree on {what} (goal {gid}), but the property was not seen to fail",
@@ -404,7 +617,11 @@ def run(rep: C.Report, tier: str) -> int:
         "gradient theorem assumes the supplied Jacobian is the true one",
         "Gaussian normalisation (int exp(-x^2/2) = sqrt(2 pi)) is a named classical fact, not proved here",
         "the logistic distribution with scale s has standard deviation s*pi/sqrt(3) (definition of the named distribution)",
-        "tolerance of each goal: 1e-9 * (sum of magnitudes of the added terms) + 1e-13",
+        "tolerance of each goal: 1e-9 * (sum of magnitudes of the added terms) + 1e-13 (4e-6 instead of 1e-9 "
+        "when the uncertainties are given as a float32 array: numpy then works in single precision)",
+        "an element of an integer-dtype input is modelled by its integer, of a float-dtype input by its exact "
+        "rational; numpy's `1.0 / a`, `log(a)`, `a * float`, `a - float_array` are taken to be the real "
+        "functions of that value (checked on every typed case by the goals themselves)",
     ]
     return rep.finish(
         level="proof",
@@ -415,8 +632,13 @@ def run(rep: C.Report, tier: str) -> int:
             "coq-interval (reflexive; primitive 63-bit integers / floats of the kernel)"],
         rule="three likelihood classes round-robin; n 1..6 data points; 1..3 parameters; linear / quadratic forward "
              "models with explicit Jacobians; sigma log-uniform 1e-6..1e6 (common / mixed / all tiny / all huge); "
-             "residuals N(0,1.5), 3..40, 100..700 sigma of either or fixed sign, exactly 0, mixed; every case is "
-             "non-trivial; distinct = distinct (class, data, sigma, theta, model)")
+             "residuals N(0,1.5), 3..40, 100..700 sigma of either or fixed sign, exactly 0, mixed; plus a second "
+             "family (48 quick / 480 thorough) whose data / uncertainties reach the constructor as the user typed "
+             "them: 70% integer uncertainties (1..9, 1..120, 1..1e6; lists / tuples of Python ints, int8..int64, "
+             "uint8..uint64, (n,1) int64, Python int when n = 1), 30% float ones (float64, float list, list mixing "
+             "ints and floats, float32, longdouble, (n,1), (1,n), strided view, read-only, Python float when "
+             "n = 1), data 40% integers in a dtype that holds them / 60% the float variants; every case is "
+             "non-trivial; distinct = distinct (class, data, sigma, theta, model, representations)")
 
 
 def replay(path):
